@@ -116,6 +116,7 @@ def diff_scenarios(draw):
         reqs.append({"tok": tok, "method": "GET" if body is None else draw(st.sampled_from(["POST", "PUT"])), "body": body,
                      "api": draw(st.sampled_from(["request", "request", "stream"])), "read": draw(st.sampled_from(["all", "all", 1, 0])),
                      "host": draw(st.sampled_from(["a.test", "a.test", "b.test"])),
+                     "then": draw(st.sampled_from([None, None, None, "read", "iter"])),
                      "timeouts": draw(st.sampled_from([None, None, {"connect": 1.0, "read": 2.0, "write": 3.0, "pool": 0}]))})
         plans[tok] = draw(gen.h2_plans() if h2 else gen.h1_plans())
     seg = draw(st.sampled_from([None, None, [1], [7, 100], [3]]))
@@ -146,7 +147,7 @@ def _one(sc, sync, runtime="asyncio"):
 
     specs = []
     for r in sc["requests"]:
-        spec = {"method": r["method"], "url": f"{scheme}://{r['host']}/t/{r['tok']}", "api": r["api"], "read": r["read"], "timeouts": r["timeouts"]}
+        spec = {"method": r["method"], "url": f"{scheme}://{r['host']}/t/{r['tok']}", "api": r["api"], "read": r["read"], "timeouts": r["timeouts"], "then": r.get("then")}
         if r["body"] is not None:
             spec["content"] = r["body"]
         specs.append(spec)
